@@ -13,7 +13,9 @@ Open known findings are keyed by INPUT CLASS and EXECUTION MODE only (never by w
         (a I + shear, incl. pure shear and two-shear "hollow" tensors: zero-diagonal deviator with zero determinant):
         the Wilkinson step uses sign(b) = 0 at b == 0
   D24   single compiled call AND circulant structure (equal diagonal, equal |off-diagonals|): NaN eigenvectors for some
-  D8b   batched AND an exact structural tie of two pivot row norms (tensor symmetric under an axis exchange) AND not axis-aligned
+  D8b   batched AND an exact tie in one of the routine's branch selectors (two pivot row norms, the two projected rows a0 == a1,
+        or the rm2xx2 / rm2yy2 selector; cheap structural predicate, or for failing elements the longdouble replica of the
+        deflation step) AND not axis-aligned
   D22   LinAlg.logm_iss: honest-failure signature "result equals the 5-point-capped Pade evaluation" (see run_dense)
 Everything else must hold.
 """
@@ -48,7 +50,8 @@ ASSUMPTIONS = [
     "value of the intermediate), the clause is in the D8 class if any of them is",
     "inv: rounding bound of the adjugate/determinant formula 64 eps s1^2/(s2 s3) (not eps cond); log(exp A) = A only judged "
     "while cond(exp A) <= 1e6; exp arguments |lambda| <= 15; JVP tensors: condition <= 10, scales 1e-8..1e8 (exp: <= 2)",
-    "D23 is classified by a cheap structural class (equal diagonal, one or two non-zero off-diagonals) or, for failing elements "
+    "D8b beyond its cheap structural predicate, and D23, are classified for failing elements by vlib.oracles.c12_ref.deflation_surfaces "
+    "(no hit on 3000 generic random tensors); D23 is classified by a cheap structural class (equal diagonal, one or two non-zero off-diagonals) or, for failing elements "
     "only, by an independent longdouble replica of the deflation step (Wilkinson variable b = 0 to 64 eps with a non-small "
     "off-diagonal, any admissible root/pivot choice) or by a single-call probe of the library (two exactly equal eigenvalues at "
     "the mean of two separated reference eigenvalues); D24 / D8b by exact structural predicates on the scaled deviator",
@@ -321,13 +324,27 @@ def judge(res, clause, err, allowed, known=None, key=None, detail=None, tag=None
             if known[i] or nprobed >= 64:
                 continue
             nprobed += 1
-            from vlib.oracles.c12_ref import wilkinson_b_vanishes
-            if any(len(P) > i and (wilkinson_b_vanishes(P[i]) or d23_signature(P[i])) for P in probe):
+            from vlib.oracles.c12_ref import deflation_surfaces
+            found = None
+            for P in probe:
+                if len(P) <= i:
+                    continue
+                T = onp.asarray(P[i], dtype=float)
+                sf = deflation_surfaces(T)
+                if "b_zero" in sf or d23_signature(T):
+                    found = KEY_D23
+                    break
+                offd = T.copy()
+                offd[[0, 1, 2], [0, 1, 2]] = 0.0
+                if _CTX.get("mode") == "batched" and (sf & {"pivot_tie", "a_tie", "fac_tie"}) and onp.any(offd != 0.0):
+                    found = KEY_D8B
+                    break
+            if found:
                 known[i] = True
-                keys[i] = KEY_D23
+                keys[i] = found
                 res.count("known_class_total:" + clause)
                 res.count("known_class_bad:" + clause)
-                res.count("d23.identified_by_probe")
+                res.count("lazy_class:" + found.split("/")[1])
     # unexplained first, so that the 20-entry cap of Res can never hide one behind known findings
     must = ~known
     if must.any():
@@ -861,6 +878,7 @@ def run_case(case):
     res = Res(case)
     fam = case["family"]
     _CTX["probe"] = None
+    _CTX["mode"] = case.get("mode")
     {"eig": run_eig, "fun_pd": run_fun_pd, "fun_psd": run_fun_psd, "fun_exp": run_fun_exp, "jvp": run_jvp,
      "helpers": run_helpers, "dense": run_dense}[fam](case, res)
     return res
